@@ -772,3 +772,189 @@ theorem scanTextB_sim (dia : Dialect) (mf L0 : Nat) : ∀ (fuel : Nat) (s : BS) 
           (by rw [hs.2.1, hs.2.2.2.2.2.2.2.1, hL])
         rw [hs.2.2.2.2.2.2.2.1, hs.2.2.2.1, hs.2.2.2.2.1, hrc] at this
         exact this
+
+/-! ### scan_delim_string -/
+
+/-- `*(text_start)` is the first unit of the token text -/
+theorem get_first (mf : Nat) (s : BS) (g : Good mf s) (h : 1 ≤ s.text.length) : s.text.head? = some (s.get s.sb.textStart) := by
+  obtain ⟨i1, i2, i3, i4, i5⟩ := g.inv
+  have hlen := g.text_length
+  simp only [BS.get, BS.text, SB.tokenText] at *
+  rw [List.head?_eq_getElem?, List.getD_eq_getElem?_getD]
+  grind
+
+theorem Same.racc {mf : Nat} {s s1 : BS} (h : Same mf s s1) (k : Nat) : racc k s1 = racc k s := by
+  unfold BufScan.racc; rw [h.text]
+
+theorem Same.sum {mf : Nat} {s s1 : BS} (h : Same mf s s1) :
+    s1.text.length + s1.remaining.length = s.text.length + s.remaining.length := by rw [h.text, h.rem]
+
+/-- `next_char += 1; POSN_INCCOLUMN(1)` over a buffered unit -/
+theorem skipOne_adv (mf : Nat) (dia : Dialect) (s : BS) (g : Good mf s) (hn : s.sb.next < s.sb.limit) :
+    Adv mf dia s (skipOne s) false (s.get s.sb.next) := (setNext_adv mf dia s g hn).congr rfl rfl rfl
+
+theorem scanDelimB_sim (dia : Dialect) (mf L0 : Nat) (delim : CU) : ∀ (fuel : Nat) (s : BS) (top : Nat) (lead first : Bool),
+    Good mf s → top = s.sb.limit → s.sb.tvalueOffset = 0 → 1 ≤ s.text.length → (lead = true → 1 < s.text.length) →
+    (first = true ↔ s.text.length = 1) → s.text.head? = some delim →
+    s.measure < fuel → s.text.length + s.remaining.length = L0 →
+    Sim (Out mf L0) (scanDelimB dia mf delim fuel s top lead)
+      (scanDelim dia delim s.remaining s.line s.col lead (racc 1 s) first) := by
+  intro fuel
+  induction fuel with
+  | zero => intro s top lead first g ht h0 h1 hl hfirst hhd hm hL; omega
+  | succ fuel ih =>
+    intro s top lead first g ht h0 h1 hl hfirst hhd hm hL
+    subst ht
+    unfold scanDelimB
+    by_cases hlt : s.sb.next < s.sb.limit
+    · rw [if_pos hlt, remaining_cons mf s g hlt]
+      simp only [scanDelim, bind_eq, pure_eq]
+      apply scanU_sim mf dia s lead 1 g hlt h1 hl
+      intro u hfl a hr
+      have hrem : (s.remaining).tail = (stepU dia s u).remaining := by rw [a.rem]; rfl
+      have hfx : u.fixPrev = true → 1 < s.text.length := fun h => hl (hfl h)
+      have hgo : ∀ (s2 : BS), Same mf (stepU dia s u) s2 → Sim (Out mf L0)
+          (scanDelimB dia mf delim fuel s2 s2.sb.limit u.lead)
+          (scanDelim dia delim (s.remaining).tail s.line u.col u.lead (u.c :: fixAcc dia u.fixPrev (racc 1 s)) false) := by
+        intro s2 sm
+        have := ih s2 s2.sb.limit u.lead false sm.good rfl (by rw [sm.tvoff, a.tvoff, h0])
+          (by rw [sm.text, a.tlen g]; omega) (fun _ => by rw [sm.text, a.tlen g]; omega)
+          (by rw [sm.text, a.tlen g]; constructor
+              · intro h; simp at h
+              · intro h; omega)
+          (by rw [sm.text, a.head h1 hfx]; exact hhd)
+          (by have := a.measure; have := sm.measure; omega) (by rw [sm.sum, a.sum g, hL])
+        rw [sm.racc, hr, sm.rem, ← hrem, sm.line, sm.col, stepU_col, stepU_line] at this
+        exact this
+      by_cases hd : u.c = delim
+      · simp only [hd, if_true]
+        have pk := peekChar_spec mf (stepU dia s u) a.good
+        have sm := pk.1
+        have hclose : Out mf L0 (endDelim (peekChar mf (stepU dia s u)).2 1 1)
+            ⟨fixAcc dia u.fixPrev (racc 1 s), ⟨(s.remaining).tail, s.line, u.col⟩⟩ := by
+          have o := out_endDelim mf L0 (peekChar mf (stepU dia s u)).2 1 1 sm.good (by rw [sm.tvoff, a.tvoff, h0])
+            (by rw [sm.text, a.tlen g]; omega) (by rw [sm.sum, a.sum g, hL])
+          rw [sm.racc, hr, sm.rem, ← hrem, sm.line, sm.col, stepU_col, stepU_line] at o
+          exact o
+        cases hp : (peekChar mf (stepU dia s u)).1 with
+        | none =>
+          have hnil := pk.2.1 hp
+          rw [← hrem] at hnil
+          simp only [hnil]
+          apply sim_pure
+          have := hclose
+          rw [hnil] at this
+          exact this
+        | some d =>
+          have hp2 := pk.2.2 d hp
+          have hrc := remaining_cons mf _ sm.good hp2.1
+          rw [sm.rem, ← hrem, ← hp2.2] at hrc
+          rw [hrc]
+          simp only []
+          by_cases hv : dia = .cif1
+          · simp only [hv, if_true]
+            by_cases hws : metaOf Dialect.cif1 d ≠ .ws
+            · simp only [hws, ne_eq, not_false_eq_true, if_true]
+              have := hgo _ sm
+              rw [hrc, hv, hd] at this
+              exact this
+            · simp only [hws, if_false]
+              apply sim_pure
+              have := hclose
+              rw [hrc, hv] at this
+              exact this
+          · simp only [hv, if_false]
+            have htl : (peekChar mf (stepU dia s u)).2.sb.next - (peekChar mf (stepU dia s u)).2.sb.textStart = s.text.length + 1 := by
+              rw [← sm.good.text_length, sm.text, a.tlen g]
+            by_cases htr : (peekChar mf (stepU dia s u)).2.sb.next - (peekChar mf (stepU dia s u)).2.sb.textStart = 2 ∧ d = delim
+            · have hf1 : first = true := hfirst.mpr (by omega)
+              rw [if_pos htr]
+              simp only [hf1, htr.2, beq_self_eq_true, Bool.and_self, if_true]
+              have ad := skipOne_adv mf dia _ sm.good hp2.1
+              have hdel : (peekChar mf (stepU dia s u)).2.get (peekChar mf (stepU dia s u)).2.sb.textStart = delim := by
+                have h1' := get_first mf _ sm.good (by rw [sm.text, a.tlen g]; omega)
+                rw [sm.text, a.head h1 hfx, hhd] at h1'
+                exact (Option.some.inj h1').symm
+              rw [hdel]
+              have t3 : (skipOne (peekChar mf (stepU dia s u)).2).text.length = 3 := by
+                rw [ad.tlen sm.good, sm.text, a.tlen g]; omega
+              have := scanTripleB_sim dia mf L0 delim fuel (skipOne (peekChar mf (stepU dia s u)).2) _ false 0 0 ad.good rfl
+                (by rw [ad.tvoff, sm.tvoff, a.tvoff, h0]) (by omega) (fun h => by simp at h)
+                (by have := a.measure; have := sm.measure; have := ad.measure; omega)
+                (by rw [ad.sum sm.good, sm.sum, a.sum g, hL])
+              have hr3 : racc 3 (skipOne (peekChar mf (stepU dia s u)).2) = [] := by
+                unfold racc
+                rw [List.drop_of_length_le (by omega)]; rfl
+              have hrm : (skipOne (peekChar mf (stepU dia s u)).2).remaining = ((s.remaining).tail).tail := by
+                have := ad.rem
+                rw [sm.rem, ← hrem, hrc] at this
+                rw [hrc]
+                exact (List.cons.inj this).2.symm
+              rw [hr3, hrm] at this
+              have hl2 : (skipOne (peekChar mf (stepU dia s u)).2).line = s.line := by
+                show (peekChar mf (stepU dia s u)).2.line = s.line
+                rw [sm.line, stepU_line]
+              have hc2 : (skipOne (peekChar mf (stepU dia s u)).2).col = u.col + 1 := by
+                show (peekChar mf (stepU dia s u)).2.col + 1 = u.col + 1
+                rw [sm.col, stepU_col]
+              rw [hl2, hc2, hrc] at this
+              exact this
+            · rw [if_neg htr]
+              have : (first && d == delim) = false := by
+                cases hf : first with
+                | false => rfl
+                | true =>
+                  have := hfirst.mp hf
+                  have hdd : d ≠ delim := fun h => htr ⟨by omega, h⟩
+                  simp [hdd]
+              simp only [this, Bool.false_eq_true, if_false]
+              apply sim_pure
+              have := hclose
+              rw [hrc] at this
+              exact this
+      · simp only [hd, if_false]
+        by_cases he : classOf dia u.c = .eol
+        · simp only [he, if_true]
+          have b := adv_backUp a g 1 h1
+          rw [b.2.2.2.1, b.2.2.2.2.1, stepU_line, stepU_col]
+          apply sim_bind_same
+          intro _
+          apply sim_pure
+          have o := out_endDelim mf L0 (backUp (stepU dia s u)) 1 0 b.1 (by rw [b.2.2.2.2.2.1, h0]) (by rw [b.2.2.2.2.2.2.1]; exact h1)
+            (by rw [b.2.2.2.2.2.2.2, hL])
+          rw [b.2.1, hr, b.2.2.1, b.2.2.2.1, b.2.2.2.2.1, stepU_col, stepU_line, ← hrem] at o
+          exact o
+        · simp only [he, if_false]
+          have := hgo _ (Same.refl a.good)
+          rw [a.limit] at this
+          exact this
+    · rw [if_neg hlt]
+      have hnl : s.sb.next = s.sb.limit := by have := g.inv.2.2.1; omega
+      have hs := getMore_spec mf s g hnl
+      have hrc : racc 1 (getMore mf s).2 = racc 1 s := by unfold racc; rw [hs.2.1]
+      show Sim _ (if (getMore mf s).1 = true then _ else _) _
+      cases hb : (getMore mf s).1
+      · rw [if_neg (by simp)]
+        have hr := (hs.2.2.2.2.2.2.2.2.1 hb).1
+        rw [hr]
+        simp only [scanDelim, bind_eq, pure_eq]
+        have hu := unpairedLeadB_sim mf dia (getMore mf s).2 lead 1 hs.1 (by rw [hs.2.1]; exact h1) (by rw [hs.2.1]; exact hl)
+        rw [hrc, hs.2.2.2.1, hs.2.2.2.2.1] at hu
+        apply sim_bind hu
+        intro s' acc' ⟨g', e1, e2, e3, e4, e5, e6⟩
+        rw [e3, e4]
+        apply sim_bind_same
+        intro _
+        apply sim_pure
+        have o := out_endDelim mf L0 s' 1 0 g' (by rw [e5, hs.2.2.1, h0]) (by rw [e6, hs.2.1]; exact h1)
+          (by rw [e6, e2, hs.2.1, hs.2.2.2.2.2.2.2.1, hL])
+        subst e1
+        rw [e2.trans (hs.2.2.2.2.2.2.2.1.trans hr), e3, e4] at o
+        exact o
+      · rw [if_pos rfl]
+        have := ih (getMore mf s).2 (getMore mf s).2.sb.limit lead first hs.1 rfl (by rw [hs.2.2.1, h0]) (by rw [hs.2.1]; exact h1)
+          (by rw [hs.2.1]; exact hl) (by rw [hs.2.1]; exact hfirst) (by rw [hs.2.1]; exact hhd)
+          (by simp only [BS.measure, hs.2.2.2.2.2.2.2.1] at hm ⊢; have := (hs.2.2.2.2.2.2.2.2.2 hb).2; omega)
+          (by rw [hs.2.1, hs.2.2.2.2.2.2.2.1, hL])
+        rw [hs.2.2.2.2.2.2.2.1, hs.2.2.2.1, hs.2.2.2.2.1, hrc] at this
+        exact this
